@@ -87,6 +87,10 @@ class Repo:
         if os.path.exists(wrapper):
             self.modules['<wrapper>'] = Module('<wrapper>', wrapper, 'ssh-audit.py')
         self._funcs = None
+        from . import alphanorm
+        self.normalised = alphanorm.normalise(self)
+        if self.normalised:
+            self._funcs = None
 
     # -- lookup ------------------------------------------------------------------------------
     def mod(self, name):
@@ -428,6 +432,7 @@ class Reporter:
             'known_findings_reproduced': [f.to_json() for f, _ in listed],
             'unlisted_violations': [f.to_json() for f in unlisted],
             'notes': self.notes,
+            'alpha_normalised_locals': getattr(repo, 'normalised', {}) if repo else {},
             'checker_cmd': 'python3 /verif/check.py %s --tier %s' % (self.prop, self.tier),
             'trusted_base': ['CPython ast module (3.11) parses the same language the repo runs', 'rule tables in /verif/props (hand-confirmed against the source)'],
         }
